@@ -113,6 +113,77 @@ macro_rules! drive_k {
         (outs, panicked)
     }};
 }
+/// like drive_k!, then `copy().rev()` of the state after the history, first 4 items from its front
+macro_rules! drive_k_rv {
+    ($it:expr, $h:expr) => {{
+        let mut it = $it;
+        let mut outs = Vec::with_capacity($h.len());
+        let mut panicked = false;
+        for &back in $h.iter() {
+            let c = it.copy();
+            let r = catch_unwind(AssertUnwindSafe(move || if back { c.next_back() } else { c.next() }));
+            match r {
+                Ok(Some((x, n))) => {
+                    outs.push(Some(x));
+                    it = n;
+                }
+                Ok(None) => outs.push(None),
+                Err(_) => {
+                    panicked = true;
+                    break;
+                }
+            }
+        }
+        let mut rv = Vec::new();
+        if !panicked {
+            let c = it.copy();
+            let r = catch_unwind(AssertUnwindSafe(move || {
+                let mut v = Vec::new();
+                let mut r = c.rev();
+                while v.len() < 4 {
+                    match r.copy().next() {
+                        Some((x, n)) => {
+                            v.push(x);
+                            r = n;
+                        }
+                        None => break,
+                    }
+                }
+                v
+            }));
+            match r {
+                Ok(v) => rv = v.into_iter().map(Some).collect(),
+                Err(_) => rv = vec![None],
+            }
+        }
+        ((outs, panicked), rv)
+    }};
+}
+macro_rules! drive_s_rv {
+    ($it:expr, $h:expr) => {{
+        let mut it = $it;
+        let mut outs = Vec::with_capacity($h.len());
+        let mut panicked = false;
+        for &back in $h.iter() {
+            let r = catch_unwind(AssertUnwindSafe(|| if back { it.next_back() } else { it.next() }));
+            match r {
+                Ok(o) => outs.push(o),
+                Err(_) => {
+                    panicked = true;
+                    break;
+                }
+            }
+        }
+        let rv: Vec<Option<_>> = if panicked { Vec::new() } else {
+            let c = it.clone();
+            match catch_unwind(AssertUnwindSafe(move || c.rev().take(4).collect::<Vec<_>>())) {
+                Ok(v) => v.into_iter().map(Some).collect(),
+                Err(_) => vec![None],
+            }
+        };
+        ((outs, panicked), rv)
+    }};
+}
 macro_rules! drive_s {
     ($it:expr, $h:expr) => {{
         let mut it = $it;
@@ -160,6 +231,28 @@ where
         K::RI => drive_s!(a..=b, h),
         K::RR => drive_s!((a..b).rev(), h),
         K::RIR => drive_s!((a..=b).rev(), h),
+    }
+}
+
+fn k_revat<T: V>(k: K, a: T, b: T, h: &[bool]) -> (Outs<T>, Vec<Option<T>>) {
+    use konst::iter::into_iter;
+    match k {
+        K::R => drive_k_rv!(into_iter!(a..b), h),
+        K::RI => drive_k_rv!(into_iter!(a..=b), h),
+        K::RR => drive_k_rv!(into_iter!(a..b).rev(), h),
+        K::RIR => drive_k_rv!(into_iter!(a..=b).rev(), h),
+    }
+}
+fn s_revat<T: V>(k: K, a: T, b: T, h: &[bool]) -> (Outs<T>, Vec<Option<T>>)
+where
+    Range<T>: DoubleEndedIterator<Item = T>,
+    RangeInclusive<T>: DoubleEndedIterator<Item = T>,
+{
+    match k {
+        K::R => drive_s_rv!(a..b, h),
+        K::RI => drive_s_rv!(a..=b, h),
+        K::RR => drive_s_rv!((a..b).rev(), h),
+        K::RIR => drive_s_rv!((a..=b).rev(), h),
     }
 }
 
@@ -216,7 +309,15 @@ where
     let imp = show_outs(&k_hist(k, a, b, &h, via));
     let st = show_outs(&s_hist(k, a, b, &h));
     out.line("c09.hist", &args, &imp, &st, &tag(k, a, b, &h, steps + 1));
+    // rev() at the state the history leaves (a part of the same calls, short histories only)
+    let n = REVAT.fetch_add(1, std::sync::atomic::Ordering::Relaxed);
+    if n % 3 == 0 && steps <= 12 {
+        let sh = |x: (Outs<T>, Vec<Option<T>>)| format!("{}|{}", show_outs(&x.0), x.1.iter().map(|o| o.map_or("PANIC".to_string(), |v| v.show())).collect::<Vec<_>>().join(","));
+        let args = format!("{} {} {} {} {} {} {}", T::NAME, k.name(), a.show(), b.show(), pat, steps, PROF);
+        out.line("c09.revat", &args, &sh(k_revat(k, a, b, &h)), &sh(s_revat(k, a, b, &h)), &tag(k, a, b, &h, steps + 1));
+    }
 }
+static REVAT: std::sync::atomic::AtomicUsize = std::sync::atomic::AtomicUsize::new(0);
 
 const PATS: [&str; 6] = ["F", "B", "FB", "BF", "FFB", "BBF"];
 
